@@ -13,6 +13,7 @@ LIBQB_A := $(B)/libqb_asan.a
 ENGINE_O := $(B)/engine/vp.o
 SCHED_O := $(B)/engine/vp_sched.o $(B)/engine/vp_tsan_abi.o
 SCHED_WRAP := -Wl,--wrap=pthread_mutex_lock -Wl,--wrap=pthread_mutex_trylock -Wl,--wrap=pthread_mutex_unlock -Wl,--wrap=pthread_spin_lock -Wl,--wrap=pthread_spin_trylock -Wl,--wrap=pthread_spin_unlock -Wl,--wrap=sem_wait -Wl,--wrap=sem_trywait -Wl,--wrap=sem_post -Wl,--wrap=sem_getvalue
+THREAD_WRAP := -Wl,--wrap=pthread_create -Wl,--wrap=pthread_join -Wl,--wrap=pthread_exit -Wl,--wrap=pthread_rwlock_rdlock -Wl,--wrap=pthread_rwlock_wrlock -Wl,--wrap=pthread_rwlock_unlock
 
 HARNESSES := $(patsubst harness/%.c,%,$(wildcard harness/c[0-9][0-9]_*.c))
 .PRECIOUS: $(B)/engine/%.o $(B)/tsan/%.o $(B)/asan/%.o
